@@ -94,11 +94,17 @@ def run(ctx):
     proved = ctx.prove("C17", extracted=["MonoConsts", "LowerFlags"])
     if ctx.tier == "thorough" and proved:
         ctx.coqchk("C17")
-    ok, out = vlib.coq_make(["Base/CaseCheck.vo", "Model/AirLower.vo", "Model/Mono.vo", "Model/AirTypes.vo", "Model/AirLocals.vo", "Proofs/MonoClosed.vo"])
+    ok, out = vlib.coq_make(["Base/CaseCheck.vo", "Model/AirLower.vo", "Model/Mono.vo", "Model/AirTypes.vo", "Model/AirLocals.vo"])
     if not ok:
         ctx.broken.append("coq: model files for the C17 tie do not build")
         ctx.log(out[-2000:])
         return
+    # the guard of the unbounded mono theorem is evaluated on generated programs only when its file builds;
+    # a broken proof must not stop the search for a failing input
+    okg, outg = vlib.coq_make(["Proofs/MonoClosed.vo"])
+    ctx.guard_available = okg
+    if not okg and not ctx.broken:
+        ctx.broken.append("coq: Proofs/MonoClosed.vo does not build")
     ok, paths, log = vlib.harness_build(["hx_air"], profile="dev")
     if not ok:
         ctx.broken.append("harness build failed (hx_air)")
@@ -113,12 +119,59 @@ def run(ctx):
             return
         out = run_harness(ctx, hx, ["--count", "0", "--source-escaped", src.replace("\\", "\\\\").replace("\n", "\\n").replace("\t", "\\t")])
     else:
-        n = 400 if ctx.tier == "quick" else 3000
-        out = run_harness(ctx, hx, ["--seed", str(ctx.seed), "--count", str(n),
-                                    "--corpus", os.path.join(vlib.VERIF, "corpus", "C17")])
+        corpus = os.path.join(vlib.VERIF, "corpus", "C17")
+        if ctx.tier == "quick":
+            runs = [("dev", ctx.seed, 400, "sema,O2", True)]
+        else:
+            # thorough: three seeds, every optimisation level in front of the lowering, dev and release harness
+            okr, rpaths, rlog = vlib.harness_build(["hx_air"], profile="release")
+            runs = [("dev", ctx.seed, 1200, "sema,O1,O2,O3", True),
+                    ("dev", ctx.seed + 1000, 1200, "sema,O1,O2,O3", False)]
+            if okr:
+                runs.append(("release", ctx.seed + 2000, 1200, "sema,O2", True))
+            else:
+                ctx.notes.append("release harness did not build; thorough tier ran dev only")
+        merged, stat = [], {}
+        for k, (prof, sd, n, modes, with_corpus) in enumerate(runs):
+            binp = hx if prof == "dev" else rpaths["hx_air"]
+            args = ["--seed", str(sd), "--count", str(n), "--modes", modes]
+            if with_corpus:
+                args += ["--corpus", corpus]
+            o = run_harness(ctx, binp, args)
+            if o is None:
+                return
+            for line in o.splitlines():
+                f = line.split("\t")
+                if f[0] == "STAT":
+                    stat[f[1]] = stat.get(f[1], 0) + int(f[2])
+                elif len(f) > 1:
+                    f[1] = f"{prof}{k}:{f[1]}"
+                    merged.append("\t".join(f))
+        merged += [f"STAT\t{a}\t{b}" for a, b in sorted(stat.items())]
+        ctx.cov["harness_runs"] = [{"profile": p_, "seed": sd, "programs": n, "modes": m_} for (p_, sd, n, m_, _) in runs]
+        out = "\n".join(merged)
     if out is None:
         return
     analyse(ctx, out)
+
+
+def _guard_check(ctx, vs, mo, src, unesc):
+    # holds for the program the real lower() produced, the validator must find nothing after mono
+    post_bad = {(v["case"], v["mode"]) for v in vs if v["stage"] == "post"}
+    g_cases = [(f"(({q}) : mprog)", "true" if (c, m) in post_bad else "false") for (c, m, q, _) in mo]
+    gfails, err = vlib.coq_eval_cases("c17g", IMPORT_MC, "mono_guard", "(fun g v => implb g (negb v))", g_cases,
+                                      shard=min(150, max(40, len(g_cases) // 16 + 1)), timeout=1500)
+    if err:
+        ctx.broken.append("C17/mono guard: model evaluation failed")
+        ctx.log(err[-3000:])
+    if gfails:
+        ctx.broken.append(f"C17/mono guard: on {len(gfails)} programs the guard of the mono_closed theorem holds but the validator "
+                          "reports a finding after monomorphisation (model, translation or validator wrong)")
+        ctx.cov["guard_contradictions"] = [{"case": mo[i][0], "mode": mo[i][1], "source": unesc(src.get(mo[i][0], ""))} for i in gfails[:3]]
+    nog, err2 = vlib.coq_eval_cases("c17g2", IMPORT_MC, "mono_guard", "(fun g (_ : bool) => g)", g_cases,
+                                    shard=min(150, max(40, len(g_cases) // 16 + 1)), timeout=1500)
+    ctx.cov["mono_theorem_guard_holds_on"] = f"{len(g_cases) - len(nog)} of {len(g_cases)} generated lowerings"
+
 
 
 def analyse(ctx, out):
@@ -189,22 +242,8 @@ def analyse(ctx, out):
                       {"source": d0["source"], "case": d0["case"], "mode": d0["mode"], "implementation": d0["implementation"],
                        "model": d0["model"], "oracle": "contract tie"})
 
-    # ---- the guarded theorem against reality: wherever the guard of C17_mono_closed_outside_open_classes
-    # holds for the program the real lower() produced, the validator must find nothing after mono
-    post_bad = {(v["case"], v["mode"]) for v in vs if v["stage"] == "post"}
-    g_cases = [(f"(({q}) : mprog)", "true" if (c, m) in post_bad else "false") for (c, m, q, _) in mo]
-    gfails, err = vlib.coq_eval_cases("c17g", IMPORT_MC, "mono_guard", "(fun g v => implb g (negb v))", g_cases,
-                                      shard=min(150, max(40, len(g_cases) // 16 + 1)), timeout=1500)
-    if err:
-        ctx.broken.append("C17/mono guard: model evaluation failed")
-        ctx.log(err[-3000:])
-    if gfails:
-        ctx.broken.append(f"C17/mono guard: on {len(gfails)} programs the guard of the mono_closed theorem holds but the validator "
-                          "reports a finding after monomorphisation (model, translation or validator wrong)")
-        ctx.cov["guard_contradictions"] = [{"case": mo[i][0], "mode": mo[i][1], "source": unesc(src.get(mo[i][0], ""))} for i in gfails[:3]]
-    nog, err2 = vlib.coq_eval_cases("c17g2", IMPORT_MC, "mono_guard", "(fun g (_ : bool) => g)", g_cases,
-                                    shard=min(150, max(40, len(g_cases) // 16 + 1)), timeout=1500)
-    ctx.cov["mono_theorem_guard_holds_on"] = f"{len(g_cases) - len(nog)} of {len(g_cases)} generated lowerings"
+    if getattr(ctx, 'guard_available', True):
+        _guard_check(ctx, vs, mo, src, unesc)
 
     # ---- (d) type-name lowering contract tie (signatures of the top-level functions)
     ty_cases = [(f"(({q}) : list titem)", f"(({o}) : list (list ty))") for (_, _, q, o) in tyc]
@@ -287,6 +326,26 @@ def analyse(ctx, out):
     ctx.cov["rule"] = ("each generated program is lowered after type inference and again after the standard optimizer "
                        "(the input AirLowerStage sees); distinct = distinct canonical CFGs with >= 2 blocks among all lowered "
                        "functions + distinct monomorphisation outcomes with >= 1 instance")
+    feats = {}
+    for (_, _, q, _) in sk:
+        for k in ("EAtom", "EIdent", "EOp KPass", "EOp KTmp", "EOp KVoid", "(KAssign", "(KConcat", "(KCall true", "(KCall false",
+                  "EShort true", "EShort false", "EIfE", "ELam", "SExpr", "SLet", "SBlock", "SIfElse", "SWhile", "SForEach",
+                  "SRetE", "SBreak", "SContinue", "SFn", "SNop"):
+            feats[k] = feats.get(k, 0) + q.count(k)
+        feats["SIf"] = feats.get("SIf", 0) + len(re.findall(r"SIf\b(?!E)", q))
+        feats["SFor"] = feats.get("SFor", 0) + len(re.findall(r"SFor\b(?!E)", q))
+        feats["SRet"] = feats.get("SRet", 0) + len(re.findall(r"SRet\b(?!E)", q))
+        feats["closure (captures)"] = feats.get("closure (captures)", 0) + len(re.findall(r"(?:ELam|SFn) \[\d", q))
+    for (_, _, q, _) in tyc:
+        for k in ("IPrim", "IName", "ISeq", "IFun", "IVoid", "IDyn", "TIStruct", "TIFn"):
+            feats["ty:" + k] = feats.get("ty:" + k, 0) + q.count(k)
+    for (_, _, q, _) in mo:
+        for k in ("TParam", "TSlice", "TFn", "TStruct", "MCall", "MInit", "MCast", "AConst", "ALocal"):
+            feats["mono:" + k] = feats.get("mono:" + k, 0) + q.count(k)
+    ctx.cov["model_feature_counts"] = feats
+    starved = sorted(k for k, v in feats.items() if v < 20)
+    if starved:
+        ctx.notes.append("model features reached fewer than 20 times in this run: " + ", ".join(starved))
     ctx.cov["input_distribution"] = dict(stats, rejected_by_frontend=rej, programs=len(src),
                                          lowerings=len(sk), panics=len(panics))
     for (c, m, q, o) in sk[:1] + sk[len(sk) // 2: len(sk) // 2 + 1]:
